@@ -39,7 +39,7 @@ class Rec(object):
 
     def __init__(self, style, aio, mode):
         self.log = []
-        self.style = style  # 0 fn, 1 method, 2 async_proxy, 3 mixed by task id
+        self.style = style  # 0 fn, 1 method, 2 async_proxy, 3 mixed by task id (fn, method, proxy, async_call)
         self.aio = aio  # 0: no explicit asyncio_fn; 1: tasks with even id have one; 2: odd ids
         self.mode = mode  # "sync" | "aio"
         self.closed = False
@@ -73,16 +73,20 @@ R = NULLR
 
 
 def _route(r, tc):
+    """the callable `f` through which task `tc` is reached: f.asynq(tc) is yielded by generator bodies, f.asyncio(tc) awaited
+    by hand-written async bodies, f(tc) is the plain synchronous call"""
     tid = tc.tid
     st = r.style
     if st == 3:
-        st = tid % 3
+        st = tid % 4
     ex = 1 if (r.aio and (tid + r.aio) % 2 == 1) else 0
     if st == 0:
         return tx_fn if ex else t_fn
     if st == 1:
         return OBJ.tx_m if ex else OBJ.t_m
-    return tx_px if ex else t_px
+    if st == 2:
+        return tx_px if ex else t_px
+    return VIA_CALL_X if ex else VIA_CALL
 
 
 def _const(r, lid):
@@ -361,6 +365,26 @@ def tx_px(tc):
 @async_proxy()
 def k_px(v):
     return ConstFuture(v)
+
+
+class _ViaAsyncCall(object):
+    """asynq's own async_call (an @async_proxy with asyncio_fn=asyncio_call) applied to a task function"""
+
+    def __init__(self, target):
+        self.target = target
+
+    def asynq(self, tc):
+        return asynq.async_call.asynq(self.target, tc)
+
+    def asyncio(self, tc):
+        return asynq.async_call.asyncio(self.target, tc)
+
+    def __call__(self, tc):
+        return asynq.async_call(self.target, tc)
+
+
+VIA_CALL = _ViaAsyncCall(t_fn)
+VIA_CALL_X = _ViaAsyncCall(tx_fn)
 
 
 # --------------------------------------------------------------------------------------------------
